@@ -209,6 +209,8 @@ try_run_func = Fn('src/core.rs', 'try_run_func', ret='r',
     ],
     loops={
         0: Loop(invariant=[('C15.inv.func.args', 'strs(args@) == seq!["cicada"@] + texts(command.tokens@.take(__I as int))')]),
+        1: Loop(invariant=[('C15.inv.func.status', 'status as int == (if __I > 0 { __V@[__I - 1].status as int } else { 0 }) '
+                                                   '&& lg.last_status == (if __V@.len() > 0 { __V@.last().status as int } else { 0 })')]),
     },
     hints={'loop-0-body-entry': 'assert(command.tokens@.take(__I + 1) =~= command.tokens@.take(__I as int).push(command.tokens@[__I as int])); '
                                 'assert(texts(command.tokens@.take(__I as int).push(command.tokens@[__I as int])) =~= texts(command.tokens@.take(__I as int)).push(command.tokens@[__I as int].1@)); '
